@@ -22,7 +22,7 @@ import PdfModel.Model.Parser
   `read_xref_and_trailer_at`) and `S` (the item loop of `Storage::scan`).
 -/
 
-namespace PdfLex
+namespace PdfShift
 
 /-- map over the value of an outcome -/
 def omap {α β : Type} (f : α → β) : Out α → Out β
@@ -31,10 +31,10 @@ def omap {α β : Type} (f : α → β) : Out α → Out β
   | .panic => .panic
   | .oof => .oof
 
-end PdfLex
+end PdfShift
 
 namespace Offsets
-open PdfLex
+open PdfLex PdfShift
 
 variable {R : Type}
 
